@@ -74,7 +74,7 @@ def gen_data(rs, n, nx, ny, paired, flavour):
 def gen_cases(rs, tier):
     quick = tier != 'thorough'
     cases = []
-    N = 230 if quick else 5000
+    N = 200 if quick else 5000
     for t in range(N):
         paired = (t % 3 == 2)
         n = int(rs.randint(4, 7))
@@ -126,6 +126,55 @@ def gen_cases(rs, tier):
                       'thr': float(np.round(rs.uniform(4.5, 6.5), 4)), 'tail': ('both', 'right' if sgn > 0 else 'left')[t % 2] if True else 'both', 'paired': paired,
                       'k': int(rs.randint(10, 21)), 'seed': int(rs.randint(2 ** 31 - 1)), 'flavour': 'chain', 'exp': 0, 'cexp': None, 'scale': 'unit',
                       'dtype': 'float64', 'order': 'C'})
+    # ---- exactly judged flavours (rational oracle, no tolerance, no near-threshold skip)
+    def nd(v):          # the float v as integer * 2^-55
+        f = Fraction(float(v)) * 2 ** 55
+        assert f.denominator == 1
+        return int(f)
+    NDC = (0.1, 0.3, 0.7)
+    for t in range(48 if quick else 480):
+        kind = ('const-nd', 'const-nd-paired', 'offset-paired', 'thr0', 'offset-two-sample', 'const-nd')[t % 6]
+        paired = kind in ('const-nd-paired', 'offset-paired') or (kind == 'thr0' and t % 4 == 3)
+        n = int(rs.randint(4, 6)); nx = int(rs.randint(3, 7)); ny = nx if paired else int(rs.choice([v for v in range(3, 8) if v != nx]))
+        if kind == 'thr0' and t % 2 == 0 and not paired:
+            ny = nx
+        x, y, eff = gen_data(rs, n, nx, ny, paired, 'plain')
+        edges = [(i, j) for i in range(n) for j in range(i + 1, n)]
+        rs.shuffle(edges)
+        ce = np.zeros((n, n), dtype=int)
+        x = x.astype(np.int64).astype(object); y = y.astype(np.int64).astype(object)
+        if kind.startswith('const-nd'):
+            for q, (i, j) in enumerate(edges[:int(rs.randint(1, 3))]):
+                c1 = NDC[int(rs.randint(3))]
+                c2 = c1 if (not paired and q == 0) else (NDC[int(rs.randint(3))] if rs.rand() < 0.6 else 0.0)
+                ce[i, j] = ce[j, i] = -55
+                for s_ in range(nx):
+                    x[i, j, s_] = x[j, i, s_] = nd(c1)
+                for s_ in range(ny):
+                    y[i, j, s_] = y[j, i, s_] = nd(c2)
+        elif kind.startswith('offset'):
+            for (i, j) in edges[:int(rs.randint(1, 3))]:
+                off = int(rs.choice([10 ** 8, 3 * 10 ** 7, 2 ** 27 + 1]))
+                const = rs.rand() < 0.4
+                for s_ in range(nx):
+                    x[i, j, s_] = x[j, i, s_] = off + (3 if const else int(x[i, j, s_]))
+                if const and paired:
+                    for s_ in range(ny):
+                        y[i, j, s_] = y[j, i, s_] = 0
+        else:               # thr = 0 with exact ties: one edge has equal group means
+            (i, j) = edges[0]
+            vals = [int(v) for v in rs.randint(0, 6, size=nx)]
+            for s_ in range(nx):
+                x[i, j, s_] = x[j, i, s_] = vals[s_]
+            if nx == ny:
+                pv = rs.permutation(nx)
+                for s_ in range(ny):
+                    y[i, j, s_] = y[j, i, s_] = vals[int(pv[s_])]
+        thr = 0.0 if kind == 'thr0' else float(np.round(rs.uniform(0.4, 2.5), 4))
+        cases.append({'n': n, 'nx': nx, 'ny': ny, 'x': [[[int(v) for v in r] for r in pl] for pl in x.tolist()],
+                      'y': [[[int(v) for v in r] for r in pl] for pl in y.tolist()], 'thr': thr, 'tail': TAILS[int(rs.randint(3))],
+                      'paired': paired, 'k': int(rs.randint(10, 21)), 'seed': int(rs.randint(2 ** 31 - 1)), 'flavour': kind, 'exp': 0,
+                      'cexp': ce.tolist() if ce.any() else None, 'scale': 'unit', 'dtype': 'float64', 'order': 'C', 'exact': True})
     # ---- the same kind of data in exact dyadic units: t is scale invariant, every predicate must be unchanged
     M = 90 if quick else 1500
     for t in range(M):
@@ -235,6 +284,124 @@ def oracle(c, draws_log):
     return res
 
 
+
+# ------------------------------------------------------------------ exact rational oracle (flavours judged without any tolerance)
+
+def _fr_mean(v):
+    return sum(v, Fraction(0)) / len(v)
+
+
+def exact_edge(xs, ys, thr, tail, paired):
+    """xs, ys: lists of Fraction. Returns (exceeds, exceeds_conv, undefined, infinite):
+    exceeds      – the t statistic of the property (zero variance: +-inf for a non-zero mean difference, undefined for 0/0) > thr
+    exceeds_conv – the same with bct's coded two-sample convention `denom == 0 -> t = 0`"""
+    def tn(d):
+        return abs(d) if tail == 'both' else (-d if tail == 'left' else d)
+
+    def gt_sqrt(num, V):        # num / sqrt(V) > thr, V > 0
+        if thr >= 0:
+            return num > 0 and num * num > thr * thr * V
+        return num >= 0 or num * num < thr * thr * V
+    if paired:
+        d = [a - b for a, b in zip(xs, ys)]
+        nn = len(d); md = _fr_mean(d)
+        ss = sum((a * a for a in d), Fraction(0)) - sum(d, Fraction(0)) ** 2 / nn
+        if ss == 0:
+            return (tn(md) > 0), (tn(md) > 0), md == 0, md != 0
+        r = gt_sqrt(tn(md), ss / (nn * (nn - 1)))
+        return r, r, False, False
+    n1, n2 = len(xs), len(ys)
+    mx, my = _fr_mean(xs), _fr_mean(ys)
+    V = (sum(((a - mx) ** 2 for a in xs), Fraction(0)) + sum(((b - my) ** 2 for b in ys), Fraction(0))) / (n1 + n2 - 2) * (Fraction(1, n1) + Fraction(1, n2))
+    if V == 0:
+        return (tn(mx - my) > 0), (0 > thr), mx == my, mx != my
+    r = gt_sqrt(tn(mx - my), V)
+    return r, r, False, False
+
+
+_VAR_FIXED = None
+
+
+def variance_fixed():
+    """does the bct under test already compute the variances robustly (np.ptp guard / two-pass paired sum of squares)?  Read from the source,
+    so that `float_cancel` emulates the formula that is really there (after the repair no cell is an artefact and the correspondence resumes)"""
+    global _VAR_FIXED
+    if _VAR_FIXED is None:
+        import inspect
+        src = inspect.getsource(import_bct().nbs_bct)
+        _VAR_FIXED = ('np.ptp(x)' in src, 'np.ptp(d)' in src)
+    return _VAR_FIXED
+
+
+def float_cancel(xs, ys, paired, exact_zero):
+    """does the float formula of bct lose the variance of this edge?  two-sample: exact pooled variance 0 but float denom != 0;
+    paired: the float sum of squares differs from the exact value (sign, zero, or > 1e-9 relative)"""
+    fix2, fixp = variance_fixed()
+    xf = np.array([float(a) for a in xs]); yf = np.array([float(b) for b in ys])
+    with np.errstate(all='ignore'):
+        if not paired:
+            n1, n2 = len(xf), len(yf)
+            vx = np.var(xf, ddof=1) if (np.ptp(xf) or not fix2) else 0.0
+            vy = np.var(yf, ddof=1) if (np.ptp(yf) or not fix2) else 0.0
+            s = np.sqrt(((n1 - 1) * vx + (n2 - 1) * vy) / (n1 + n2 - 2))
+            return bool(exact_zero and s * np.sqrt(1 / n1 + 1 / n2) != 0)
+        d = xf - yf
+        if fixp:
+            ssf = float(np.sum((d - np.mean(d)) ** 2)) if np.ptp(d) else 0.0
+        else:
+            ssf = float(np.sum(d ** 2) - np.sum(d) ** 2 / len(d))
+    de = [a - b for a, b in zip(xs, ys)]
+    sse = sum((a * a for a in de), Fraction(0)) - sum(de, Fraction(0)) ** 2 / len(de)
+    if sse == 0:
+        return ssf != 0
+    return (not np.isfinite(ssf)) or ssf <= 0 or abs(ssf - float(sse)) > 1e-9 * float(sse)
+
+
+def oracle_exact(c, draws_log):
+    n, nx, ny = c['n'], c['nx'], c['ny']
+    E0 = np.full((n, n), int(c.get('exp') or 0)) + (np.array(c['cexp']) if c.get('cexp') is not None else 0)
+    cells = [(i, j) for i in range(n) for j in range(i + 1, n)]
+    XF = [[Fraction(int(v)) * Fraction(2) ** int(E0[i, j]) for v in c['x'][i][j]] for (i, j) in cells]
+    YF = [[Fraction(int(v)) * Fraction(2) ** int(E0[i, j]) for v in c['y'][i][j]] for (i, j) in cells]
+    thr = Fraction(c['thr']); tail, paired = c['tail'], c['paired']
+    res = {'near': False, 'undefined': 0, 'exact': True}
+
+    def supra(Xp, Yp):
+        E, Ec, nan, inf, can = [], [], [], [], []
+        for e, cell in enumerate(cells):
+            a, b, und, isinf = exact_edge(Xp[e], Yp[e], thr, tail, paired)
+            if a:
+                E.append(cell)
+            if b:
+                Ec.append(cell)
+            if und:
+                nan.append(cell)
+            if isinf:
+                inf.append(cell)
+            if float_cancel(Xp[e], Yp[e], paired, und or isinf):
+                can.append(cell)
+        res['undefined'] += len(nan)
+        return E, Ec, nan, inf, can
+    E, Ec, nan, inf, can = supra(XF, YF)
+    res.update(E=E, E_conv=Ec, nan_cells=nan, inf_cells=inf if not paired else [], cancel_cells=can)
+    null, null_conv, null_inf, null_can = [], [], [], []
+    for ent in draws_log:
+        if paired:
+            sg = [Fraction(1) if u < 4503599627370496 else (Fraction(0) if u == 4503599627370496 else Fraction(-1)) for u in ent]
+            Xp = [[a * g for a, g in zip(r, sg)] for r in XF]; Yp = [[a * g for a, g in zip(r, sg)] for r in YF]
+        else:
+            Xp, Yp = [], []
+            for rx, ry in zip(XF, YF):
+                d = [(rx + ry)[q] for q in ent]
+                Xp.append(d[:nx]); Yp.append(d[nx:])
+        Ep, Epc, _, infp, canp = supra(Xp, Yp)
+        null.append(max([len(es) for (_, es) in comps_of(n, Ep)] + [0]))
+        null_conv.append(max([len(es) for (_, es) in comps_of(n, Epc)] + [0]))
+        null_inf.append(bool(infp) and not paired); null_can.append(bool(canp))
+    res.update(null=null, null_conv=null_conv, null_inf=null_inf, null_cancel=null_can)
+    return res
+
+
 def split_log(log, paired, nx):
     """group the Recorder log into one entry per permutation"""
     if not paired:
@@ -254,7 +421,7 @@ def run_case(c):
         x = np.array(x.astype(dt), order=c.get('order', 'C')); y = np.array(y.astype(dt), order=c.get('order', 'C'))
         assert np.array_equal(x.astype(float), np.array(c['x'], dtype=float)) and np.array_equal(y.astype(float), np.array(c['y'], dtype=float))
     thr, tail, paired, k = c['thr'], c['tail'], c['paired'], c['k']
-    out = {'fails': [], 'status': None, 'line': None, 'expected': None, 'skipped': False, 'ncomp': 0, 'undefined': 0, 'sym': 0, 'maxnodes': 0}
+    out = {'fails': [], 'status': None, 'line': None, 'expected': None, 'skipped': False, 'ncomp': 0, 'undefined': 0, 'sym': 0, 'maxnodes': 0, 'cancel_cells': 0}
     F = out['fails']
     rec = Recorder(c['seed'])
     x0, y0 = x.copy(), y.copy()
@@ -264,7 +431,7 @@ def run_case(c):
         st, v = call(bct.nbs_bct, x, y, thr, k=k, tail=tail, paired=paired, seed=rec, t=300.0)
     out['status'] = st
     if st == 'timeout':      # nbs_bct is a bounded loop: no return within 30 s, nor within 300 s on the retry, on <= 6 nodes / k <= 50 is a failure
-        F.append(('returns-within-budget', {'budget_s': 300.0}, {'degenerate_two_sample': False, 'degenerate_two_sample_null': False}))
+        F.append(('returns-within-budget', {'budget_s': 300.0}, {'degenerate_two_sample': False, 'degenerate_two_sample_null': False, 'float_cancellation': False}))
         return out
     line = 'nbs n=%d nx=%d ny=%d x=%s y=%s thr=%s tail=%s paired=%d k=%d draws=%s' % (
         n, nx, ny, mat_str(c['x']), mat_str(c['y']), frac_str(thr), tail, int(paired), k, ','.join(str(d) for d in rec.flat()) or '-')
@@ -273,7 +440,7 @@ def run_case(c):
     if c.get('cexp') is not None:
         line += ' cexp=' + mat_str(c['cexp'])
     logs = split_log(rec.log, paired, nx)
-    orc = oracle(c, logs)
+    orc = oracle_exact(c, logs) if c.get('exact') else oracle(c, logs)
     out['undefined'] = orc['undefined']
     if orc['near']:
         out['skipped'] = True
@@ -284,7 +451,15 @@ def run_case(c):
     # oracle predicts under exactly that convention (E_conv / null_conv) and differs from the true one only through +-inf cells.
     E_true, E_conv = orc['E'], orc['E_conv']
     obs_degenerate = (not paired) and set(E_true) != set(E_conv)
-    NO = {'degenerate_two_sample': False, 'degenerate_two_sample_null': False}
+    NO = {'degenerate_two_sample': False, 'degenerate_two_sample_null': False, 'float_cancellation': False}
+    # Second known defect: the float variance formulas lose a zero / tiny variance (non-dyadic constants, one-pass paired sum of squares).
+    # `cancel` = the cells where bct's formula provably differs from the exact value (float_cancel); a failure is attributed only if it is
+    # confined to those cells (or, for null values, to relabellings that contain such a cell).
+    cancel = set(tuple(e) for e in orc.get('cancel_cells', []))
+    out['cancel_cells'] = len(cancel)
+    if cancel or any(orc.get('null_cancel', [])):
+        out['line'] = None      # some float variance is an artefact (observed data or a relabelling): the exact model is not expected to agree; judged by the exact oracle only
+        out['nocorr'] = True
     if thr < 0 and orc['nan_cells']:
         # 0/0 statistic with a negative threshold: the statistic is undefined, no claim on those cells (bct uses 0 / nan)
         out['status'] = 'noclaim'
@@ -296,7 +471,11 @@ def run_case(c):
         if kind == 'BCTParamError' and 'Unsuitable threshold' in v and not E_true:
             return out                                    # documented rejection: no suprathreshold edge
         known = obs_degenerate and kind == 'BCTParamError' and 'Unsuitable threshold' in v and not E_conv
-        F.append(('raises', {'exception': v, 'oracle_edges': E_true, 'inf_cells': orc['inf_cells']}, dict(NO, degenerate_two_sample=bool(known))))
+        known2 = (not known) and kind == 'BCTParamError' and 'Unsuitable threshold' in v and bool(cancel) and set(E_conv) <= cancel
+        F.append(('raises', {'exception': v, 'oracle_edges': E_true, 'inf_cells': orc['inf_cells'], 'cancellation_cells': sorted(cancel)},
+                  dict(NO, degenerate_two_sample=bool(known), float_cancellation=bool(known2))))
+        if known2:
+            out['line'] = None          # the exact model cannot agree with a float artefact
         return out
     pvals, adj, null = v
     pvals = np.asarray(pvals, dtype=float); adj = np.asarray(adj, dtype=float); null = np.asarray(null, dtype=float)
@@ -310,10 +489,15 @@ def run_case(c):
     E_use = E_true
     if adj.shape != (n, n) or not np.array_equal(adj != 0, smat(E_true)):
         known = obs_degenerate and adj.shape == (n, n) and np.array_equal(adj != 0, smat(E_conv))
-        F.append(('support', {'adj': adj.tolist(), 'oracle_edges': E_true, 'inf_cells': orc['inf_cells']}, dict(NO, degenerate_two_sample=bool(known))))
-        if not known:
+        marked = [(i, j) for i in range(n) for j in range(i + 1, n) if adj.shape == (n, n) and adj[i, j] != 0]
+        known2 = (not known) and adj.shape == (n, n) and np.array_equal(adj, adj.T) and bool(cancel) and (set(marked) ^ set(E_conv)) <= cancel
+        F.append(('support', {'adj': adj.tolist(), 'oracle_edges': E_true, 'inf_cells': orc['inf_cells'], 'cancellation_cells': sorted(cancel)},
+                  dict(NO, degenerate_two_sample=bool(known), float_cancellation=bool(known2))))
+        if not (known or known2):
             return out
-        E_use = E_conv          # go on: labels, p-values, null and the symmetries are still judged, relative to the marked support
+        E_use = E_conv if known else marked   # go on: labels, p-values, null and the symmetries are still judged, relative to the marked support
+        if known2:
+            out['line'] = None
     cond = dict(NO)
     orc['comps'] = comps_of(n, E_use)
     if not np.array_equal(adj, adj.T):
@@ -351,8 +535,12 @@ def run_case(c):
         if len(bad):
             # attributed to the known defect only if every deviating value is exactly the `denom == 0 -> 0` value of a relabelling that has a +-inf cell
             known = (not paired) and all(orc['null_inf'][u] and null[u] == oc[u] for u in bad)
+            nc = orc.get('null_cancel', [False] * k)
+            known2 = (not known) and all(nc[u] or (orc['null_inf'][u] and null[u] == oc[u]) for u in bad)
             F.append(('null', {'null': null.tolist(), 'oracle_null': orc['null'], 'oracle_null_denom0_convention': orc['null_conv'],
-                               'deviating_permutations': [int(u) for u in bad]}, dict(NO, degenerate_two_sample_null=bool(known))))
+                               'deviating_permutations': [int(u) for u in bad]}, dict(NO, degenerate_two_sample_null=bool(known), float_cancellation=bool(known2))))
+            if known2:
+                out['line'] = None
     if not (np.array_equal(x, x0) and np.array_equal(y, y0)):
         F.append(('input-modified', {}, cond))
     # ---- symmetries of the observed components (k small: only adj is compared)
@@ -367,14 +555,25 @@ def run_case(c):
     base = canon_adj(adj)
     st2, v2 = call(bct.nbs_bct, y0.copy(), x0.copy(), thr, k=3, tail=SWAP[tail], paired=paired, seed=Recorder(1), t=30.0, retry=10)
     out['sym'] += 1
+    def sym_cond(st_, v_):
+        # a symmetry failure is attributed to the float-cancellation defect only if the two supports differ inside cancellation cells
+        if not cancel:
+            return cond
+        if st_ == 'exc' and 'Unsuitable threshold' in str(v_):
+            diff = set((i, j) for i in range(n) for j in range(i + 1, n) if adj[i, j] != 0)
+        elif st_ == 'ok':
+            a2 = np.asarray(v_[1]); diff = set((i, j) for i in range(n) for j in range(i + 1, n) if (adj[i, j] != 0) != (a2[i, j] != 0))
+        else:
+            return cond
+        return dict(cond, float_cancellation=bool(diff) and diff <= cancel)
     if st2 != 'ok' or not np.array_equal(canon_adj(v2[1]), base):
-        F.append(('group-swap', {'tail': tail, 'swapped_tail': SWAP[tail], 'adj': adj.tolist(), 'adj_swapped': v2[1].tolist() if st2 == 'ok' else str(v2)}, cond))
+        F.append(('group-swap', {'tail': tail, 'swapped_tail': SWAP[tail], 'adj': adj.tolist(), 'adj_swapped': v2[1].tolist() if st2 == 'ok' else str(v2)}, sym_cond(st2, v2)))
     prs = np.random.RandomState(c['seed'] % 65521)
     px = prs.permutation(nx); py = px if paired else prs.permutation(ny)
     st3, v3 = call(bct.nbs_bct, x0[:, :, px].copy(), y0[:, :, py].copy(), thr, k=3, tail=tail, paired=paired, seed=Recorder(2), t=30.0, retry=10)
     out['sym'] += 1
     if st3 != 'ok' or not np.array_equal(canon_adj(v3[1]), base):
-        F.append(('subject-reorder', {'px': px.tolist(), 'py': py.tolist(), 'adj': adj.tolist(), 'adj_reordered': v3[1].tolist() if st3 == 'ok' else str(v3)}, cond))
+        F.append(('subject-reorder', {'px': px.tolist(), 'py': py.tolist(), 'adj': adj.tolist(), 'adj_reordered': v3[1].tolist() if st3 == 'ok' else str(v3)}, sym_cond(st3, v3)))
     return out
 
 
@@ -528,12 +727,16 @@ def main():
             ck.count('probe:' + c['probe'], r['ran'])
             ck.case(nontrivial_key=digest(c) if r['ran'] else None)
             if r['fail'] is not None:
-                ck.violation('nbs_bct', 'result-depends-on-history', {'case': c, 'info': r['fail']}, {'degenerate_two_sample': False, 'degenerate_two_sample_null': False})
+                ck.violation('nbs_bct', 'result-depends-on-history', {'case': c, 'info': r['fail']}, {'degenerate_two_sample': False, 'degenerate_two_sample_null': False, 'float_cancellation': False})
             continue
         ck.count('status:' + str(r['status'])); ck.count('n=%d' % c['n']); ck.count('tail:' + c['tail']); ck.count('paired' if c['paired'] else 'two-sample')
         ck.count('flavour:' + c['flavour']); ck.count('dtype:%s/%s' % (c.get('dtype', 'float64'), c.get('order', 'C'))); ck.count('scale:' + c.get('scale', 'unit')); ck.count('symmetry_calls', r['sym']); ck.count('undefined_t_cells(0/0)', r['undefined'])
         if r['skipped']:
             ck.count('skipped_near_threshold')
+        if r.get('cancel_cells'):
+            ck.count('cases_with_float_cancellation_cells')
+        if r.get('nocorr'):
+            ck.count('correspondence_skipped(float variance artefact: judged by the exact oracle only)')
         nontriv = r['status'] == 'ok' and r['ncomp'] > 0
         ck.case(sample={k_: c[k_] for k_ in ('n', 'nx', 'ny', 'thr', 'tail', 'paired', 'k', 'seed', 'flavour', 'scale', 'exp')} | {'components': r['ncomp'], 'x[:,:,0]': np.array(c['x'])[:, :, 0].tolist()} if nontriv else None,
                 nontrivial_key=digest([c['x'], c['y'], c['thr'], c['tail'], c['paired'], c['k'], c['seed'], c.get('exp'), c.get('cexp')]) if nontriv else None)
@@ -544,6 +747,8 @@ def main():
             ck.violation('nbs_bct', pred, {'case': c, 'info': info}, cond)
         if r['line'] is not None and r['expected'] is not None:
             lines.append(r['line']); meta.append((c, r['expected']))
+    if not ck.replay and ck.dist.get('skipped_near_threshold', 0) > max(3, len(cases) // 50):
+        ck.corr_break('too many cases skipped as near-threshold (cap 2 %)', {'skipped': ck.dist.get('skipped_near_threshold'), 'cases': len(cases)})
     if not ck.replay and not ck.dist.get('status:ok'):
         ck.corr_break('nbs_bct never returned normally in this run', {'statuses': {k_: v_ for k_, v_ in ck.dist.items() if k_.startswith('status:')}})
     if ok:
